@@ -356,6 +356,85 @@ def rule_hash_order(ctx: Ctx, rule: str = "hash-order") -> None:
     ctx.floor("hash-order functions inspected", n, 1)
 
 
+def float_fields(prog: Program, cname: str) -> Set[str]:
+    """State fields the constructor fills with float(<something>) without filtering zero: they can hold -0.0."""
+    init = prog.resolve_method(cname, "__init__")
+    out: Set[str] = set()
+    if init is None:
+        return out
+    me = init.params[0]
+    for node in ast.walk(init.node):
+        tg, val = None, None
+        if isinstance(node, ast.Assign):
+            tg, val = node.targets[0], node.value
+        elif isinstance(node, ast.AnnAssign):
+            tg, val = node.target, node.value
+        if isinstance(tg, ast.Attribute) and isinstance(tg.value, ast.Name) and tg.value.id == me and isinstance(val, ast.Call) and isinstance(val.func, ast.Name) and val.func.id == "float":
+            out.add(tg.attr)
+    return out
+
+
+def _text_of_field(fn: ast.AST, me: str, fields: Set[str]) -> List[ast.AST]:
+    """Places in fn where a float field of self is turned into text: str(self.f), '%s' % self.f, '{}'.format(self.f),
+    f'{self.f}', repr(self.f)."""
+
+    def is_field(e: ast.AST) -> bool:
+        return isinstance(e, ast.Attribute) and isinstance(e.value, ast.Name) and e.value.id == me and e.attr in fields
+
+    out: List[ast.AST] = []
+    for nd in ast.walk(fn):
+        if isinstance(nd, ast.Call) and isinstance(nd.func, ast.Name) and nd.func.id in ("str", "repr", "format") and nd.args and is_field(nd.args[0]):
+            out.append(nd)
+        elif isinstance(nd, ast.FormattedValue) and is_field(nd.value):
+            out.append(nd)
+        elif isinstance(nd, ast.Call) and isinstance(nd.func, ast.Attribute) and nd.func.attr == "format" and any(is_field(a) for a in nd.args):
+            out.append(nd)
+        elif isinstance(nd, ast.BinOp) and isinstance(nd.op, ast.Mod) and (is_field(nd.right) or (isinstance(nd.right, ast.Tuple) and any(is_field(a) for a in nd.right.elts))):
+            out.append(nd)
+    return out
+
+
+def rule_hash_number_text(ctx: Ctx, rule: str = "hash-number-text") -> None:
+    """C19: == compares a float field numerically (0.0 == -0.0), so __hash__ must hash the number, not its text
+    ('0.0' != '-0.0'): a float field that the constructor stores unfiltered must not reach the hash through str()."""
+    prog = ctx.prog
+    n = 0
+    for cname in ["PolyhedralTerm"]:
+        fi = prog.resolve_method(cname, "__hash__")
+        eqf = prog.resolve_method(cname, "__eq__")
+        construct = "%s.__hash__ hashes numbers as numbers (equal constants 0.0 / -0.0 hash equally)" % cname
+        if fi is None or eqf is None:
+            ctx.cannot_decide(rule, cname + ".__hash__", construct, "anchor vanished")
+            continue
+        ff = float_fields(prog, cname)
+        compared = {property_field(prog, cname, a) for a in attrs_on(eqf.node, eqf.params[0])}
+        ff &= compared
+        if not ff:
+            ctx.cannot_decide(rule, fi.key, construct, "no float state field found that __eq__ compares")
+            continue
+        roots = [(fi, fi.params[0])]
+        for nd in ast.walk(fi.node):
+            via = None
+            if isinstance(nd, ast.Call) and isinstance(nd.func, ast.Name) and nd.func.id in ("str", "repr") and nd.args and isinstance(nd.args[0], ast.Name) and nd.args[0].id == fi.params[0]:
+                via = "__str__" if nd.func.id == "str" else "__repr__"
+            if isinstance(nd, ast.FormattedValue) and isinstance(nd.value, ast.Name) and nd.value.id == fi.params[0]:
+                via = "__str__"
+            if via:
+                sfi = prog.resolve_method(cname, via)
+                if sfi is not None:
+                    roots.append((sfi, sfi.params[0]))
+        bad = []
+        for f, me in roots:
+            n += 1
+            for site in _text_of_field(f.node, me, ff):
+                bad.append("%s in %s" % (norm(site)[:40], f.key))
+        if bad:
+            ctx.violation(rule, fi.key, construct, "the hash is computed from the text of a float field (%s); a constant of -0.0 (e.g. from 'x >= 0' or multiply(-1)) equals 0.0 but prints differently" % "; ".join(sorted(set(bad))), where=fi.where)
+        else:
+            ctx.ok(rule, fi.key, construct)
+    ctx.floor("hash-number-text functions inspected", n, 1)
+
+
 def rule_copy(ctx: Ctx, rule: str = "copy-fields") -> None:
     """C19 E4: copy() hands a copy of every state field to the constructor in the right slot."""
     prog = ctx.prog
